@@ -10,6 +10,7 @@ import "time"
 const zzMaxD2 = int64(1) << 40
 
 type zzCallRec struct {
+	never       bool
 	fu          Future
 	due         time.Time
 	started     int
@@ -33,6 +34,10 @@ func zzC12Sched() {
 		recs[i] = r
 		d := vInt64("delay")
 		vAssume(d >= -8 && d <= zzMaxD2)
+		if vParam("NEVER") == 1 && vChoose("never", 2) == 1 {
+			d = 1<<63 - 1 // the usual "never" idiom: time.Duration(math.MaxInt64)
+			r.never = true
+		}
 		t0 := time.Now()
 		r.due = t0.Add(time.Duration(d))
 		r.fu = Call(func() {
@@ -56,10 +61,19 @@ func zzC12Sched() {
 		}
 	}
 	vReach("script-done")
-	// C13: every future that was not cancelled is eventually started (otherwise: deadlock)
+	// C13: every future that was not cancelled is eventually started (otherwise: deadlock); a "never" future is
+	// cancelled once everything else has fired - it must not have been started and must not have held up the others
 	for _, r := range recs {
-		if !r.cancelled {
+		if !r.cancelled && !r.never {
 			<-r.done
+		}
+	}
+	for _, r := range recs {
+		if r.never && !r.cancelled {
+			vAssert(r.started == 0, "a future scheduled 'never' (MaxInt64 delay) was started")
+			r.fu.Cancel()
+			r.cancelled = true
+			r.cancelEarly = true
 		}
 	}
 	vReach("all-fired")
